@@ -9,9 +9,9 @@ LVLS = (1, 3, 5)
 INT_MIN, INT_MAX = -2**31, 2**31 - 1
 
 # level constants mirrored for the generators only (the theorems use the generated tables)
-CONST = {1: dict(f=248, resp=128, bt=16, hb=126, hc=122, rows=134, nw=4, p=5 * 2**248 - 1),
-         3: dict(f=376, resp=194, bt=18, hb=192, hc=184, rows=198, nw=6, p=65 * 2**376 - 1),
-         5: dict(f=500, resp=255, bt=18, hb=253, hc=247, rows=260, nw=8, p=27 * 2**500 - 1)}
+CONST = {1: dict(f=248, resp=128, bt=16, hb=126, hc=122, rows=134, nw=4, p=5 * 2**248 - 1, hit=16),
+         3: dict(f=376, resp=194, bt=18, hb=192, hc=184, rows=198, nw=6, p=65 * 2**376 - 1, hit=256),
+         5: dict(f=500, resp=255, bt=18, hb=253, hc=247, rows=260, nw=8, p=27 * 2**500 - 1, hit=64)}
 
 VAR = {
     "dim2": dict(lib="sqisigndim2", defs=(), nsig=16,
@@ -212,7 +212,13 @@ def c_stage(kv):
     return 0
 
 
-def challenge_py(lvl, jcom_hex, jpk_hex, msg_hex):
-    """independent recomputation of hash_to_challenge: SHAKE256(enc(j(E_com)) || enc(j(pk)) || m) as little-endian integer"""
+def challenge_py(lvl, variant, jcom_hex, jpk_hex, msg_hex):
+    """independent recomputation of hash_to_challenge: SHAKE256(enc(j(E_com)) || enc(j(pk)) || m) as little-endian integer
+    (the heuristic variant re-hashes the digest SQIsign2D_heuristic_challenge_hash_iteration times)"""
     data = bytes.fromhex(jcom_hex) + bytes.fromhex(jpk_hex) + (bytes.fromhex(msg_hex) if msg_hex and msg_hex != "-" else b"")
-    return int.from_bytes(hashlib.shake_256(data).digest(8 * CONST[lvl]["nw"]), "little")
+    n = 8 * CONST[lvl]["nw"]
+    dig = hashlib.shake_256(data).digest(n)
+    if variant == "heur":
+        for _ in range(CONST[lvl]["hit"]):
+            dig = hashlib.shake_256(dig).digest(n)
+    return int.from_bytes(dig, "little")
